@@ -180,6 +180,8 @@ def worker_main(args):
                 failure = hyp_search(ctx, prop.strategy(ctx), max(50, examples - ctx.evals) if attempt else examples)
                 if failure is None:
                     break
+                if hasattr(prop, 'reduce'):
+                    failure = prop.reduce(ctx, failure)
                 kf = ctx.findings.match(prop.ID, failure[2])
                 if kf is None:
                     break
@@ -252,7 +254,11 @@ def main(modname, tier, seed=None):
     b = prop.budget(tier)
     W = int(os.environ.get('VERIF_WORKERS', b.get('workers', 14)))
     state = dict(known={})
-    violations, nreg = run_regress(prop, kf, state)
+    if os.environ.get('VERIF_SKIP_REGRESS') == '1':
+        # for sensitivity experiments only (is the GENERATOR able to find a seeded change without the saved regression input?)
+        violations, nreg = [], 0
+    else:
+        violations, nreg = run_regress(prop, kf, state)
     results = []
     if not violations:
         jobs = [(modname, tier, seed, w, b['examples'], b.get('wall')) for w in range(W)]
